@@ -2650,6 +2650,9 @@ def groupby_reduce(
             "See https://github.com/numbagg/numbagg/issues/121."
         )
 
+    if _is_arg_reduction(func) and dtype is not None and np.dtype(dtype).kind not in "iu":
+        raise ValueError(f"arg-reductions return integer positions; received dtype={dtype!r}.")
+
     if func in ["quantile", "nanquantile"]:
         if finalize_kwargs is None or "q" not in finalize_kwargs:
             raise ValueError("Please pass `q` for quantile calculations.")
